@@ -1,12 +1,11 @@
 (** C08 — interruption stops new work within a fixed bound and loses nothing started.
     Proved here for the call APIs (fold / try_fold / for_each / try_for_each, mut and control
     variants, every limit and order) and for stream_interruptible. "Loses nothing started / the call returns": C04, C09.
-    Partial: "with NonInterruptible or IgnoreInterruptions a signal never changes which functions
-    run" is proved at the level of the wrapper (it never ends the stream and never produces an
-    Interrupted item: [IntCredit.wrapper_transparent]) and validated by the correspondence, not as an
-    equivalence of whole runs. *)
+    "With NonInterruptible or IgnoreInterruptions a signal never changes which functions run":
+    [C08_ignore_transparent_call/_stream]: deleting every signal from any history leaves the whole
+    state (trace, outcome, items yielded, wake-ups) unchanged except the wrapper's own bookkeeping. *)
 From FG Require Import Dag Builder Sched DagFacts EdgeFacts RankFacts BuilderFacts TopoFacts AugFacts BuildFacts
-     SchedInv SchedInv2 SafetyFacts CfgFacts SI_Queuer SI_Step SI2_Step LiveRun IntCredit IntRun IntStream.
+     SchedInv SchedInv2 SafetyFacts CfgFacts SI_Queuer SI_Step SI2_Step LiveRun IntCredit IntRun IntStream IntTransparent.
 
 Definition interrupt_bound (st : strat) (incl pending : bool) : nat :=
   match st with
@@ -106,6 +105,29 @@ Theorem C08_ignore_transparent_partial : forall cf s s' r,
   w_ian (w s') = false /\ w_sig (w s') = false /\ (forall o, r <> WInt o).
 Proof. exact wrapper_transparent. Qed.
 Print Assumptions C08_ignore_transparent_partial.
+
+(** Run level: with NonInterruptible or IgnoreInterruptions, removing all signals from a history
+    changes nothing but the wrapper's private counters: same trace (which functions run, in which
+    order, with which outcome), same result, same processed list, same wake-ups. *)
+Theorem C08_ignore_transparent_call : forall cf evs,
+  c_strat cf = SNonInt \/ c_strat cf = SIgnore ->
+  same_but_wrap (run cf evs) (run cf (strip evs)) /\
+  trace (run cf evs) = trace (run cf (strip evs)) /\ result (run cf evs) = result (run cf (strip evs)) /\
+  processed (run cf evs) = processed (run cf (strip evs)) /\ woken (run cf evs) = woken (run cf (strip evs)).
+Proof. intros cf evs H. split; [apply ignore_run_equiv | apply ignore_same_trace]; exact H. Qed.
+Print Assumptions C08_ignore_transparent_call.
+
+(** Streams (also the non-interruptible `stream()`): the sequence of poll_next answers is the same
+    with and without the signals. *)
+Theorem C08_ignore_transparent_stream : forall sc evs,
+  sc_interruptible sc = false \/ sc_strat sc = SNonInt \/ sc_strat sc = SIgnore ->
+  same_but_wrap (srun sc evs) (srun sc (sstrip evs)) /\ souts sc evs = souts sc (sstrip evs) /\
+  trace (srun sc evs) = trace (srun sc (sstrip evs)).
+Proof.
+  intros sc evs H. split; [apply ignore_srun_equiv; exact H|]. split; [apply ignore_souts_equiv; exact H|].
+  apply (ignore_same_strace sc evs H).
+Qed.
+Print Assumptions C08_ignore_transparent_stream.
 
 (** Non-vacuity: chain 0 -> 1 -> 2, FinishCurrent, signal while 0 is in flight: with the include flag
     exactly one more function (1) starts, without it none. *)
